@@ -287,6 +287,52 @@ func runC14(r *Run) {
 			s.close()
 		}
 	}
+	// a server CLOSE frame is still queued behind a push whose handler is busy when the user closes; the handler then
+	// returns and the closed connection's dispatcher drains its queue: no new connection may follow
+	for _, trans := range []string{"tcp"} {
+		entered := make(chan struct{}, 1)
+		release := make(chan struct{})
+		base, baseAll := settle(), settleAll()
+		s, err := openSessionPrep(trans, 1, func(tc *testClient) {
+			first := true
+			tc.cli.Subscribe(50, func(p *protocol.Packet) {
+				if first {
+					first = false
+					entered <- struct{}{}
+					<-release
+				}
+			})
+		}, client.DialTimeout(fDial))
+		if err == nil {
+			f := &fsession{s, base, baseAll}
+			s.lk.sendFrame(pushFrame(1, 50, []byte("busy")))
+			select {
+			case <-entered:
+				s.lk.sendFrame(pushFrame(1, 0, pbCloseBody(1, "bye")))
+				s.tc.log.waitCount("got data", 1, 200*time.Millisecond)
+				time.Sleep(100 * time.Millisecond) // read and queued
+				r.checkClose(s.tc, "server close frame queued behind a busy handler")
+				close(release)
+				r.afterCloseQuiet(f, "server close frame queued behind a busy handler, handler returns after Close", 1500*time.Millisecond)
+			case <-time.After(2 * time.Second):
+				close(release)
+			}
+			r.st.Evaluations++
+			s.close()
+		}
+	}
+	// Close while the WebSocket writer is blocked in the socket write (peer stopped reading)
+	if f, err := openF("ws", client.WriteQueueSize(2), client.MinGzipSize(0)); err == nil {
+		atomic.StoreInt32(&f.lk.(wsLink).pc.stopRead, 1)
+		body := bigBody()
+		for i := 0; i < 24; i++ {
+			f.tc.doAsync(uint32(60+i%8), body, fReq)
+			time.Sleep(5 * time.Millisecond)
+		}
+		r.checkClose(f.tc, "ws writer blocked in the socket write (stalled peer)")
+		r.afterCloseQuiet(f, "ws writer blocked in the socket write", 400*time.Millisecond)
+		f.close()
+	}
 	// reader holding an undelivered frame
 	if f, err := openF("tcp"); err == nil {
 		g := hub.arm("tcp.before-add", nil)
